@@ -127,7 +127,7 @@ def _shape(classes):
             kw["corner"] = st.integers(0, 3)
         if c.startswith("CellWrap:"):
             kw["wp"] = _pos()
-        if c in _SETTER_CLASSES:
+        if c in _SETTER_CLASSES or c in ("Circle", "Rectangle", "CellSquare"):
             kw["setter"] = st.one_of(st.just(0), st.integers(0, 6))
         alts.append(fixed(**kw))
     return st.one_of(alts)
@@ -372,8 +372,16 @@ def _build(spec):
     pos = _spec_pos(spec)
     rot = float(spec.get("rot", 0.0))
     setter = int(spec.get("setter", 0)) if cls in _SETTER_CLASSES else 0
+    # Circle: position and radius setters; Rectangle / CellSquare: only the
+    # rotation setter (moving or resizing them is not a documented operation)
+    part_setter = int(spec.get("setter", 0)) if cls in (
+        "Circle", "Rectangle", "CellSquare") else 0
     if setter:
         pos0, R0, rot0 = 0.5 * pos + R * (0.3 - 0.2j), 0.75 * R, rot + 13.0
+    elif part_setter and cls == "Circle":
+        pos0, R0, rot0 = 0.5 * pos + R * (0.3 - 0.2j), 0.75 * R, rot
+    elif part_setter:
+        pos0, R0, rot0 = pos, R, rot + 13.0
     else:
         pos0, R0, rot0 = pos, R, rot
 
@@ -388,14 +396,30 @@ def _build(spec):
             return cell.CellSquare(p_, R_, cell_id=1, rotation=rot_)
         raise AssertionError(name)
 
+    def use_then(obj, **final):
+        # the object is used with its first configuration, then changed
+        # through the public setters
+        obj.is_point_inside_shape(pos0 + 0.3 * R0)
+        obj.vertices
+        for name, value in final.items():
+            setattr(obj, name, value)
+        return obj
+
     if cls == "Circle":
-        obj = shapes.Circle(pos, R)
+        obj = shapes.Circle(pos0, R0)
+        if part_setter:
+            order = [("pos", pos), ("radius", R)]
+            use_then(obj, **dict(order[::-1] if part_setter % 2 else order))
     elif cls == "Rectangle":
         hw, hh = _rect_half_sides(spec)
         k = int(spec["corner"])
         d = [complex(-hw, -hh), complex(hw, -hh), complex(hw, hh),
              complex(-hw, hh)][k]
-        obj = shapes.Rectangle(pos + d, pos - d, rot)
+        obj = shapes.Rectangle(pos + d, pos - d, rot0)
+        if part_setter:
+            use_then(obj, rotation=rot)
+    elif cls == "CellSquare" and part_setter:
+        obj = use_then(mk(cls, pos, R, rot0), rotation=rot)
     elif cls.startswith("CellWrap:"):
         inner = mk(cls.split(":")[1], _spec_pos(spec, "wp"), R, rot)
         obj = cell.CellWrap(pos, inner)
@@ -733,6 +757,29 @@ def _check_users(case, ctx):
         if len(wu) != n:
             raise Violation("wrap_users", "wrapped copy shows %d of %d users"
                             % (len(wu), n), tags)
+        if cls != "CellSquare" and int(case["seed"]) % 2:
+            # the wrapped cell is resized / turned AFTER the wrap exists: the
+            # wrap keeps showing the cell as it is now
+            obj.radius = 1.25 * R
+            obj.rotation = rot + 17.0
+            ctx.label("users:wrapped_cell_changed_afterwards")
+            _close(ctx, "wrap_follows_cell", float(np.max(np.abs(
+                (np.array(w.vertices) - wpos) -
+                (np.array(obj.vertices) - pos)))), RTOL * (L + abs(wpos)),
+                "outline of the wrap after the wrapped cell changed", tags)
+            obj.radius = R
+            obj.rotation = rot
+            # ... and moved: the users shown in the wrap keep their offsets
+            np_ = pos + complex(0.5 * R, 2.0 * R)
+            obj.pos = np_
+            for a, b in zip(list(obj.users), list(w.users)):
+                _close(ctx, "wrap_follows_cell",
+                       abs((complex(b.pos) - wpos) - (complex(a.pos) - np_)),
+                       RTOL * (L + abs(wpos) + abs(np_)), "user offsets in "
+                       "the wrap after the wrapped cell was moved", tags)
+            obj.pos = pos
+            users = list(obj.users)
+            wu = list(w.users)
         for a, b in zip(users, wu):
             _close(ctx, "wrap_users", abs((complex(b.pos) - wpos) -
                                           (complex(a.pos) - pos)),
@@ -946,6 +993,20 @@ def _check_cluster(case, ctx):
             _close(ctx, "wrap_congruent", float(np.max(np.abs(
                 (np.array(w.vertices) - w.pos) -
                 (np.array(src.vertices) - src.pos)))), RTOL * Lw, "", tags)
+        # which cell is shown where: every wrapped cell is its source
+        # shifted by one of the six lattice vectors of length sqrt(19) d0
+        # (one vector turned by multiples of 60 degrees)
+        vec = np.array([complex(w.pos) - complex(w._wrapped_cell.pos)
+                        for w in ws])
+        _close(ctx, "wrap_shift_length",
+               float(np.max(np.abs(np.abs(vec) - math.sqrt(19.0) * d0))),
+               RTOL * Lw, "shifts %r" % sorted(set(np.round(
+                   np.abs(vec) / d0, 6).tolist())), tags)
+        sixth = (vec / vec[0]) ** 6
+        _close(ctx, "wrap_shift_direction",
+               float(np.max(np.abs(sixth - 1.0))), 1e-6,
+               "a wrapped cell is not shifted along one of the six lattice "
+               "directions of the ring", tags)
         allp = np.concatenate([cen, wp])
         DD = np.abs(allp[:, None] - allp[None, :])
         DD[np.arange(61), np.arange(61)] = np.inf
